@@ -1,8 +1,9 @@
 #!/bin/sh
 # tools/run_all_seeded.sh -- run every seeded change against its property's quick check (one at a time,
-# /repo restored after each) and print one line per change.  Expected: exit 1 for all but the two
+# /repo restored after each) and print one line per change.  Expected: exit 1 for all but the three
 # documented exceptions (c20-phantom-stack-entry-on-bad-attr: outside C20's domain;
-# c16-ctype-lookup-by-registration-order: made harmless by fix 267d78b).
+# c16-ctype-lookup-by-registration-order: made harmless by fix 267d78b;
+# c18-stamp-before-purge: made harmless by fix 62da8e8).
 here=$(cd "$(dirname "$0")/.." && pwd)
 for d in "$here"/seeded/*/; do
   id=$(basename "$d")
